@@ -18,6 +18,21 @@ def run(ctx, replay=None):
                 continue
             # two-column values: structure correspondence (cross differences checked against |dz1|*|dz2| of the model's pair)
             vc.eval_structure_case(ctx, model, case, prop='C16')
+        # unsigned two-column value tables on the truncated (absolute maxlag) path: always part of a run
+        if not replay:
+            found, tries = 0, 0
+            while found < 4 and tries < 400:
+                tries += 1
+                uc = vc.gen_case(rng, nmax=18, cross=True)
+                if uc.get('bins') is not None or not (isinstance(uc['maxlag'], float) and uc['maxlag'] >= 1) or uc['dist_func'] != 'euclidean' or uc['bin_func'] in ('kmeans', 'ward'):
+                    continue
+                n_ = len(uc['values'])
+                uc['values'] = [float(rng.randint(0, 200)) for _ in range(n_)]
+                uc['values2'] = [float(rng.randint(0, 250)) for _ in range(n_)]
+                uc['values_dtype'] = rng.choice(['uint8', 'uint16'])
+                uc['tags'] = dict(uc['tags'], stream='unsigned-table-sparse')
+                found += 1
+                vc.eval_structure_case(ctx, model, uc, prop='C16')
         # an instance that was a cross-variogram receives one-column values again: ordinary variogram
         for case in cases[:30 if not ctx.thorough() else 300]:
             if case.get('table'):
@@ -88,11 +103,21 @@ def run(ctx, replay=None):
         nt = 25 if not ctx.thorough() else 250
         for t in range(nt):
             base = vc.gen_case(rng, nmax=16)
+            while t < 3 and not (len(base['coords'][0]) == 2 and base['dist_func'] == 'euclidean'):
+                base = vc.gen_case(rng, nmax=16)          # the first tables are directional ones (2-D, Euclidean)
+            if t < 6 and not replay:
+                # 'median' / 'mean' maximum lags are always part of a run, also for coordinates in the unit square (median distance < 1)
+                base['bins'], base['maxlag'] = None, ('median' if t % 2 == 0 else 'mean')
+                if base['bin_func'] in ('kmeans', 'ward'):
+                    base['bin_func'] = 'even'
+                if t in (2, 3):
+                    cc_ = np.array(base['coords'], float)
+                    base['coords'] = (cc_ / max(1.0, float(np.abs(cc_).max())) / 2.0).tolist()
             ncol = rng.choice([2, 3, 3, 4])
             npts = len(base['coords'])
             cols = [gen.values(rng, npts, kind=rng.choice(['dyadic', 'ints', 'squares']))[1] for _ in range(ncol)]
             vals = np.column_stack(cols)
-            directional = rng.random() < 0.3 and len(base['coords'][0]) == 2 and base['dist_func'] == 'euclidean'
+            directional = (rng.random() < 0.3 or t < 3) and len(base['coords'][0]) == 2 and base['dist_func'] == 'euclidean'
             case = dict(base, table=True, columns=[c.tolist() for c in cols], directional=directional)
             kw = dict(estimator=base['estimator'], n_lags=base['n_lags'], fit_method=None)
             if base.get('bins') is not None:
@@ -101,7 +126,10 @@ def run(ctx, replay=None):
                 kw['bin_func'] = base['bin_func']
                 kw['maxlag'] = base['maxlag']
             if directional:
-                kw.update(azimuth=rng.choice([0, 45, 90, -60]), tolerance=rng.choice([45, 90, 180]))
+                if rng.random() < 0.35 or t < 3:
+                    kw.update(azimuth=0)          # the direction alone (East), tolerance / bandwidth left at their defaults
+                else:
+                    kw.update(azimuth=rng.choice([0, 45, 90, -60]), tolerance=rng.choice([45, 90, 180]))
                 if isinstance(kw.get('maxlag'), float) and kw['maxlag'] >= 1:
                     pass
                 kw.pop('fit_method')
@@ -115,6 +143,9 @@ def run(ctx, replay=None):
                 ctx.case_done(case, False)
                 continue
             cls = DirectionalVariogram if directional else Variogram
+            if directional and not all(isinstance(tab[i_][j_], DirectionalVariogram) for i_ in range(ncol) for j_ in range(ncol)):
+                ctx.problem('oracle', 'a direction was passed to cross_variograms but the table holds isotropic variograms', dict(case, kwargs={k_: v_ for k_, v_ in kw.items() if k_ in ('azimuth', 'tolerance', 'bandwidth')}), None,
+                            {'what': 'table-base-class'})
             ok = True
             for i in range(ncol):
                 for j in range(ncol):
